@@ -74,3 +74,97 @@ c.ensures('fields', 'self.engineio_app == engineio_app and self.wsgi_app == wsgi
           'self.static_files == static_files) and '
           'implies(static_files is None, len(self.static_files) == 0)')
 c.modifies('self.engineio_app', 'self.wsgi_app', 'self.engineio_path', 'self.static_files')
+
+# ------------------------------------------------------------------------------------ ASGIApp (C20)
+REG.schema('ASGIApp', module='async_drivers.asgi', fields=dict(
+    engineio_server=Opaque('EngineApp'), other_asgi_app=Opaque('WSGIApplication', True),
+    engineio_path=ANY, static_files=SF, on_startup=Opaque('LifespanCallback', True),
+    on_shutdown=Opaque('LifespanCallback', True)))
+SCOPE = Ty('dict', STR, ANY, (('type', STR), ('path', STR)))
+RCV, SND = Opaque('AsgiReceive'), Opaque('AsgiSend')
+APP_WF = ("(self.engineio_path is None or (isinstance(self.engineio_path, str) and "
+          "self.engineio_path.startswith('/') and self.engineio_path.endswith('/')))")
+
+REG.contract('async_drivers.asgi.ASGIApp._ensure_trailing_slash').inline = True
+
+c = REG.contract('async_drivers.asgi.ASGIApp.not_found', props=['C20'])
+c.param('self', Ref('ASGIApp')).param('receive', RCV).param('send', SND)
+c.ensures('404', "asgi_log == old(asgi_log) + ['http.response.start', 'http.response.body'] and "
+          "asgi_status == old(asgi_status) + [404] and route == old(route) and "
+          "opened == old(opened)")
+c.modifies('ghost.asgi_log', 'ghost.asgi_status', 'ghost.asgi_ctype', 'ghost.now')
+
+c = REG.contract('async_drivers.asgi.ASGIApp.serve_static_file', props=['C20'])
+c.param('self', Ref('ASGIApp')).param('static_file', Ty('rec', ('content_type', STR), ('filename', STR)))
+c.param('receive', RCV).param('send', SND)
+c.ensures('serves-that-file-with-its-type-or-nothing',
+          "(asgi_log == old(asgi_log) and opened == old(opened) and asgi_status == old(asgi_status)) or "
+          "(asgi_log == old(asgi_log) + ['http.response.start', 'http.response.body'] and "
+          "asgi_status == old(asgi_status) + [200] and opened == old(opened) + [static_file['filename']] "
+          "and asgi_ctype == old(asgi_ctype) + [b'Content-Type', static_file['content_type'].encode('utf-8')])")
+c.ensures('not-routed', 'route == old(route)')
+c.modifies('ghost.asgi_log', 'ghost.asgi_status', 'ghost.asgi_ctype', 'ghost.opened', 'ghost.now')
+
+c = REG.contract('async_drivers.asgi.ASGIApp.lifespan', props=['C20'])
+c.param('self', Ref('ASGIApp')).param('scope', SCOPE).param('receive', RCV).param('send', SND)
+DELEG = ('self.other_asgi_app is not None and self.on_startup is None and '
+         'self.on_shutdown is None')
+c.ensures('passed-to-wrapped-app-when-no-callbacks', 'implies(' + DELEG + ", route == old(route) + "
+          "['app'] and asgi_log == old(asgi_log) and callbacks == old(callbacks))")
+c.ensures('answered-per-protocol', 'implies(not (' + DELEG + '), route == old(route) and '
+          'lifespan_answers(asgi_log, len(old(asgi_log))))')
+c.ensures('failed-exactly-when-the-callback-raised', 'implies(not (' + DELEG + '), '
+          '(cb_raised == old(cb_raised) or cb_raised == old(cb_raised) + 1) and '
+          '(cb_raised == old(cb_raised) + 1) == (len(asgi_log) > len(old(asgi_log)) and '
+          "(asgi_log[len(asgi_log) - 1] == 'lifespan.startup.failed' or "
+          "asgi_log[len(asgi_log) - 1] == 'lifespan.shutdown.failed')))")
+c.modifies('ghost.asgi_log', 'ghost.route', 'ghost.callbacks', 'ghost.cb_raised', 'ghost.now')
+c.loop(0, invariants=[
+    ('not-delegated', 'not (' + DELEG + ') and route == old(route)'),
+    ('no-callback-raised-so-far', 'cb_raised == old(cb_raised)'),
+    ('only-startup-answers-so-far', 'grows(asgi_log, old(asgi_log)) and '
+     "forall(lambda k: asgi_log[k] == 'lifespan.startup.complete', len(old(asgi_log)), len(asgi_log))")],
+    modifies=['event', 'ghost.asgi_log', 'ghost.callbacks', 'ghost.cb_raised', 'ghost.now'])
+
+c = REG.contract('async_drivers.asgi.ASGIApp.__call__', props=['C20'])
+c.param('self', Ref('ASGIApp')).param('scope', SCOPE).param('receive', RCV).param('send', SND)
+c.requires("'type' in scope and 'path' in scope and (scope['path'] == '' or "
+           "scope['path'].startswith('/'))", 'asgi-scope')
+c.requires(APP_WF, 'endpoint-normalised-by-init')
+AUNDER = ("(scope['type'] == 'http' or scope['type'] == 'websocket') and "
+          "(self.engineio_path is None or "
+          "(scope['path'] if scope['path'].endswith('/') else scope['path'] + '/')"
+          ".startswith(self.engineio_path))")
+LIFE = "scope['type'] == 'lifespan'"
+c.ensures('lifespan-handled-by-lifespan', 'implies(' + LIFE + ', opened == old(opened) and '
+          'asgi_status == old(asgi_status))')
+c.ensures('engine-exactly-under-the-endpoint', 'implies(not ' + LIFE + ", (route == old(route) + "
+          "['engine']) == (" + AUNDER + '))')
+c.ensures('engine-request-untouched-here', 'implies(not ' + LIFE + ' and ' + AUNDER + ', '
+          'asgi_log == old(asgi_log) and opened == old(opened))')
+c.ensures('static-file-only-for-http-and-never-with-dotdot', 'implies(len(opened) > len(old(opened)), '
+          "scope['type'] == 'http' and not (" + AUNDER + ") and not has_dotdot(scope['path']) and "
+          "route == old(route) and len(opened) == len(old(opened)) + 1 and "
+          "asgi_status == old(asgi_status) + [200])")
+c.ensures('otherwise-app-or-404', 'implies(not ' + LIFE + ' and not (' + AUNDER + ') and '
+          'opened == old(opened) and asgi_log != old(asgi_log), '
+          "route == old(route) and self.other_asgi_app is None and asgi_status == old(asgi_status) + [404])")
+c.ensures('app-only-when-nothing-served-here', "implies(not " + LIFE + " and route == old(route) + ['app'], "
+          'opened == old(opened) and asgi_log == old(asgi_log) and self.other_asgi_app is not None)')
+c.modifies('ghost.route', 'ghost.opened', 'ghost.asgi_log', 'ghost.asgi_status', 'ghost.asgi_ctype',
+           'ghost.callbacks', 'ghost.cb_raised', 'ghost.now')
+
+c = REG.contract('async_drivers.asgi.ASGIApp.__init__', props=['C20'])
+c.param('self', Ref('ASGIApp')).param('engineio_server', Opaque('EngineApp'))
+c.param('other_asgi_app', Opaque('WSGIApplication', True)).param('static_files', [NONE, SF])
+c.param('engineio_path', [NONE, STR])
+c.param('on_startup', Opaque('LifespanCallback', True)).param('on_shutdown', Opaque('LifespanCallback', True))
+c.ensures('endpoint-normalised', APP_WF + ' and (self.engineio_path is None) == (engineio_path is None) '
+          'and implies(engineio_path is not None, self.engineio_path == norm_endpoint(engineio_path))')
+c.ensures('fields', 'self.engineio_server == engineio_server and self.other_asgi_app == other_asgi_app '
+          'and self.on_startup == on_startup and self.on_shutdown == on_shutdown and '
+          'implies(static_files is not None and len(static_files) > 0, '
+          'self.static_files == static_files) and '
+          'implies(static_files is None, len(self.static_files) == 0)')
+c.modifies('self.engineio_server', 'self.other_asgi_app', 'self.engineio_path', 'self.static_files',
+           'self.on_startup', 'self.on_shutdown')
